@@ -5,7 +5,6 @@ import (
 	"go/constant"
 	"go/token"
 	"go/types"
-	"os"
 	"sort"
 	"strconv"
 	"strings"
@@ -21,12 +20,7 @@ type FnA struct {
 	unit *unitInfo // non-nil when private single-call-site helpers are folded in (w.AU)
 }
 
-func (w *World) A(fn *ssa.Function) *FnA {
-	if os.Getenv("GVERIF_UNITS") != "" {
-		return w.AU(fn)
-	}
-	return &FnA{w: w, fn: fn, sh: w.Shaper(fn)}
-}
+func (w *World) A(fn *ssa.Function) *FnA { return w.AU(fn) }
 
 type Edge struct {
 	From *ssa.BasicBlock
@@ -171,6 +165,27 @@ func (a *FnA) IfEdgesB(pattern string, holds bool, pre Bind, filter func(Bind) b
 	return a.ifEdgesPat(ParsePattern(pattern), holds, pre, filter, 0, nil)
 }
 
+// PredSpec is one alternative of a guard: a predicate pattern and the value it must have.
+type PredSpec struct {
+	Pat    *Shape
+	Holds  bool
+	Pre    Bind
+	Filter func(Bind) bool
+}
+
+// IfEdgesAlt returns the edges on which at least one of the alternative predicates has its wanted
+// value. Unlike the union of separate IfEdges calls, a helper's outcome establishes the guard when
+// its relevant returns are covered by the alternatives jointly (e.g. `key == nil || key.Equal(k)`
+// checked inside a validator helper).
+func (a *FnA) IfEdgesAlt(specs ...PredSpec) []Edge {
+	e, _ := a.ifEdgesAlt(specs, 0, nil)
+	return e
+}
+
+func Spec(pattern string, holds bool, filter func(Bind) bool) PredSpec {
+	return PredSpec{Pat: ParsePattern(pattern), Holds: holds, Filter: filter}
+}
+
 // ifEdgesPat finds the If edges on which the pattern predicate has the value
 // `holds`. Besides Ifs that test the predicate directly it follows predicate
 // and validator helpers of the repository (depth <= 2): for `if helper(x)` /
@@ -183,7 +198,10 @@ func (a *FnA) IfEdgesB(pattern string, holds bool, pre Bind, filter func(Bind) b
 // function the pattern was written for (parameters replaced by the arguments
 // of the call chain), so patterns, bindings and filters need no translation.
 func (a *FnA) ifEdgesPat(patShape *Shape, holds bool, pre Bind, filter func(Bind) bool, depth int, conv func(*Shape) *Shape) (edges []Edge, ifs []*ssa.If) {
-	pat := NormPred(patShape)
+	return a.ifEdgesAlt([]PredSpec{{patShape, holds, pre, filter}}, depth, conv)
+}
+
+func (a *FnA) ifEdgesAlt(specs []PredSpec, depth int, conv func(*Shape) *Shape) (edges []Edge, ifs []*ssa.If) {
 	if conv == nil {
 		conv = func(s *Shape) *Shape { return s }
 	}
@@ -196,26 +214,29 @@ func (a *FnA) ifEdgesPat(patShape *Shape, holds bool, pre Bind, filter func(Bind
 			continue
 		}
 		cond := NormPred(conv(a.sh.Of(ifi.Cond)))
-		bind := Bind{}
-		for k, v := range pre {
-			bind[k] = v
-		}
-		same, ok := MatchPred(pat, cond, bind)
-		if ok && (filter == nil || filter(bind)) {
-			// cond TRUE  => pattern predicate is `same`
-			// we want the edge where pattern predicate == holds
-			succ := 1
-			if same == holds {
-				succ = 0
+		matched := false
+		for _, sp := range specs {
+			bind := Bind{}
+			for k, v := range sp.Pre {
+				bind[k] = v
 			}
-			edges = append(edges, Edge{b, succ})
-			ifs = append(ifs, ifi)
+			same, ok := MatchPred(NormPred(sp.Pat), cond, bind)
+			if ok && (sp.Filter == nil || sp.Filter(bind)) {
+				// cond TRUE  => pattern predicate is `same`
+				// we want the edge where pattern predicate == holds
+				succ := 1
+				if same == sp.Holds {
+					succ = 0
+				}
+				edges = append(edges, Edge{b, succ})
+				ifs = append(ifs, ifi)
+				matched = true
+			}
+		}
+		if matched || depth >= 2 {
 			continue
 		}
-		if depth >= 2 {
-			continue
-		}
-		for _, succ := range a.helperOutcomeEdges(ifi, patShape, holds, pre, filter, depth, conv) {
+		for _, succ := range a.helperOutcomeEdges(ifi, specs, depth, conv) {
 			edges = append(edges, Edge{b, succ})
 			ifs = append(ifs, ifi)
 		}
@@ -274,7 +295,7 @@ func condCall(v ssa.Value) (call *ssa.Call, idx int, whenTrue string) {
 	return c, idx, "nil"
 }
 
-func (a *FnA) helperOutcomeEdges(ifi *ssa.If, patShape *Shape, holds bool, pre Bind, filter func(Bind) bool, depth int, conv func(*Shape) *Shape) []int {
+func (a *FnA) helperOutcomeEdges(ifi *ssa.If, specs []PredSpec, depth int, conv func(*Shape) *Shape) []int {
 	call, idx, whenTrue := condCall(ifi.Cond)
 	if call == nil {
 		return nil
@@ -312,10 +333,8 @@ func (a *FnA) helperOutcomeEdges(ifi *ssa.If, patShape *Shape, holds bool, pre B
 		}
 		return n
 	}
-	tpat, tpre, tfilter := patShape, pre, filter
 	fa := a.w.A(callee)
-	fEdges, _ := fa.ifEdgesPat(tpat, holds, tpre, tfilter, depth+1, back)
-	npat := NormPred(tpat)
+	fEdges, _ := fa.ifEdgesAlt(specs, depth+1, back)
 	var out []int
 	outcomes := []string{"true", "false"}
 	if whenTrue == "nil" || whenTrue == "nonnil" {
@@ -336,14 +355,16 @@ func (a *FnA) helperOutcomeEdges(ifi *ssa.If, patShape *Shape, holds bool, pre B
 					may = k.Value.ExactString() == o
 				} else {
 					may = true
-					bind := Bind{}
-					for k, v := range tpre {
-						bind[k] = v
-					}
-					if same, ok := MatchPred(npat, NormPred(back(fa.sh.Of(val))), bind); ok && (tfilter == nil || tfilter(bind)) {
-						// val true => P == same ; val false => P == !same
-						if (o == "true" && same == holds) || (o == "false" && same != holds) {
-							direct = true
+					for _, sp := range specs {
+						bind := Bind{}
+						for k, v := range sp.Pre {
+							bind[k] = v
+						}
+						if same, ok := MatchPred(NormPred(sp.Pat), NormPred(back(fa.sh.Of(val))), bind); ok && (sp.Filter == nil || sp.Filter(bind)) {
+							// val true => P == same ; val false => P == !same
+							if (o == "true" && same == sp.Holds) || (o == "false" && same != sp.Holds) {
+								direct = true
+							}
 						}
 					}
 				}
@@ -817,10 +838,23 @@ func AddrPath(v ssa.Value) (root ssa.Value, path []PathStep) {
 			path = append([]PathStep{{"", "[]"}}, path...)
 			v = x.X
 			continue
+		case *ssa.Parameter:
+			// a pointer handed to a folded helper: the path continues at the call's argument
+			if curWorld != nil {
+				if fr := curWorld.inlineSites()[x.Parent()]; fr != nil {
+					if i := paramIndex(x.Parent(), x); i >= 0 && i < len(fr.call.Call.Args) {
+						v = fr.call.Call.Args[i]
+						continue
+					}
+				}
+			}
 		}
 		return v, path
 	}
 }
+
+// deepInstrs visits the instructions of fn and of the helpers folded into it.
+func (w *World) deepInstrs(fn *ssa.Function, f func(ssa.Instruction)) { w.A(fn).Instrs(f) }
 
 // FieldWrite describes a store through a field of a struct type.
 type FieldWrite struct {
@@ -846,8 +880,12 @@ func (w *World) FieldWrites(fns []*ssa.Function, typ, field string) []FieldWrite
 		return false
 	}
 	for _, fn := range fns {
-		for _, b := range fn.Blocks {
-			for _, in := range b.Instrs {
+		if w.Folded(fn) {
+			continue // visited through its caller
+		}
+		fn := fn
+		w.deepInstrs(fn, func(in ssa.Instruction) {
+			{
 				switch in := in.(type) {
 				case *ssa.Store:
 					_, p := AddrPath(in.Addr)
@@ -865,7 +903,10 @@ func (w *World) FieldWrites(fns []*ssa.Function, typ, field string) []FieldWrite
 				default:
 					c := callCommon(in)
 					if c == nil {
-						continue
+						return
+					}
+					if callee := c.StaticCallee(); callee != nil && w.Folded(callee) {
+						return // the helper's own stores are visited, with the path continued at this call
 					}
 					args := c.Args
 					if c.IsInvoke() {
@@ -883,7 +924,7 @@ func (w *World) FieldWrites(fns []*ssa.Function, typ, field string) []FieldWrite
 					}
 				}
 			}
-		}
+		})
 	}
 	return out
 }
@@ -1198,21 +1239,23 @@ type CallSite struct {
 func (w *World) CallersOf(fns []*ssa.Function, names ...string) []CallSite {
 	var out []CallSite
 	for _, fn := range fns {
-		for _, b := range fn.Blocks {
-			for _, in := range b.Instrs {
-				c := callCommon(in)
-				if c == nil {
-					// method values / function references count as potential callers too
-					continue
-				}
-				_, n := calleeName(c)
-				for _, want := range names {
-					if n == want {
-						out = append(out, CallSite{fn, in})
-					}
+		if w.Folded(fn) {
+			continue // visited through its caller
+		}
+		fn := fn
+		w.deepInstrs(fn, func(in ssa.Instruction) {
+			c := callCommon(in)
+			if c == nil {
+				// method values / function references count as potential callers too
+				return
+			}
+			_, n := calleeName(c)
+			for _, want := range names {
+				if n == want {
+					out = append(out, CallSite{fn, in})
 				}
 			}
-		}
+		})
 	}
 	return out
 }
@@ -1222,7 +1265,10 @@ func (w *World) CallersOf(fns []*ssa.Function, names ...string) []CallSite {
 func (w *World) FuncRefs(fns []*ssa.Function, name string) []CallSite {
 	var out []CallSite
 	for _, fn := range fns {
-		for _, b := range fn.Blocks {
+		if w.Folded(fn) {
+			continue
+		}
+		for _, b := range w.A(fn).blocks() {
 			for _, in := range b.Instrs {
 				for _, op := range in.Operands(nil) {
 					if *op == nil {
@@ -1406,15 +1452,13 @@ type G struct {
 func (r *Run) RequireGuards(a *FnA, rule, con string, target ssa.Instruction, guards ...G) bool {
 	all := true
 	for _, g := range guards {
-		sets := [][]Edge{}
 		e, _ := a.IfEdges(g.Pattern, g.Holds, g.Filter)
 		n := len(e)
-		sets = append(sets, e)
+		specs := []PredSpec{Spec(g.Pattern, g.Holds, g.Filter)}
 		for _, alt := range g.Alt {
-			ae, _ := a.IfEdges(alt.Pattern, alt.Holds, alt.Filter)
-			sets = append(sets, ae)
+			specs = append(specs, Spec(alt.Pattern, alt.Holds, alt.Filter))
 		}
-		ok := n > 0 && a.EveryPathTakes(target, sets...)
+		ok := n > 0 && a.EveryPathTakes(target, a.IfEdgesAlt(specs...))
 		want := g.Pattern
 		if !g.Holds {
 			want = "not " + want
@@ -1449,7 +1493,10 @@ func structFields(n *types.Named) []string {
 func fieldReads(w *World, fns []*ssa.Function, typ, field string) int {
 	n := 0
 	for _, fn := range fns {
-		for _, b := range fn.Blocks {
+		if w.Folded(fn) {
+			continue
+		}
+		for _, b := range w.A(fn).blocks() {
 			for _, in := range b.Instrs {
 				switch x := in.(type) {
 				case *ssa.Field:
